@@ -957,9 +957,10 @@ Definition istep (o : op) (s : storage) (m : meta) : result res * storage * meta
       | None => run_i (op_prog Boa o) s m
       end
   | OShift =>
-      (* Array.prototype.shift: dense fast path when `len <= dense.len()` *)
+      (* Array.prototype.shift: dense fast path when `len <= dense.len()`; beyond LOOP_LIMIT the executable model
+         reports Unsupported on every path (the bound of the generic loop), so the fast path is not modelled there *)
       let n := meta_len m in
-      match (if is_array m && negb (n =? 0) then shift_dense s n else None) with
+      match (if is_array m && negb (n =? 0) && (n <=? LOOP_LIMIT) then shift_dense s n else None) with
       | Some (v, s') =>
           let '(r, s2, m2) := run_i (set_len Boa (n - 1)) s' m in
           match r with
